@@ -74,6 +74,8 @@ JOBS['C04'] = [
     {'name': 'lbuf_history_text', 'harness': 'c04_hist.c', 'units': ['lbuf', 'sbuf', 'uc'],
      'defs': {'quick': {'K': 2, 'TL': 3}, 'thorough': {'K': 3, 'TL': 2}},
      'expect_reach': ['end', 'edit', 'undo', 'undo-at-start', 'redo-at-end'], 'timeout': {'quick': 280, 'thorough': 1700}},
+    {'name': 'long_history', 'harness': 'c04_big.c', 'units': 'ALL', 'defs': {'quick': {'NL': 140}, 'thorough': {'NL': 300}},
+     'expect_reach': ['end', 'compound', 'single'], 'max_steps': 400000000},
     {'name': 'ex_steps', 'harness': 'c04_ex.c', 'units': 'ALL',
      'defs': {'quick': {'PAIRS_DIAGONAL': 1}, 'thorough': {}},
      'expect_reach': ['end', 'B-changed', 'both-changed'], 'timeout': {'quick': 280, 'thorough': 1700}},
